@@ -292,6 +292,7 @@ Section Messages.
     assert (Hex : shows_msgs (edo st <- execute U cfg c2; match st with Proceed => main_loop U cfg f | Submit => eret tt end)).
     { apply sm_bind; [apply execute_shows_msgs|]. intros st. destruct st; [apply IH|apply sm_ret]. }
     destruct c2; try exact Hex.
+    2:{ apply sm_bind; [apply sm_refresh_line|]. intros _. apply IH. }
     apply sm_bind; [apply sm_next_char|]. intros ch.
     apply sm_bind; [|intros; apply IH].
     unfold edit_insert. sm_display. sm_auto.
